@@ -8,7 +8,7 @@ WT=$1; CH=$2; DEMO=$3; ID=$4; PROP=$5
 OUT=/verif/seeded/$ID; mkdir -p $OUT
 # the change directory may live inside the worktree (untracked): move it out before cleaning
 STAGE=$(mktemp -d /tmp/seedstage.XXXXXX); cp -r $CH/. $STAGE/; CH=$STAGE
-cd $WT && git checkout -q -- . && git clean -fdq
+cd $WT && git checkout -q -- . && git clean -fdq -e '.change*'
 git apply $CH/patch.diff || { echo "patch does not apply"; exit 1; }
 go build ./... || { echo "BUILD FAILS"; exit 1; }
 T1=$(go test -count=1 ./... 2>&1 | grep -E "^(FAIL|---)" | head -5)
